@@ -163,6 +163,14 @@ def injected(draw, rule=None):
             if pos:
                 pair.reverse()
             parts = [[key, ["flatten()"]], ["(" + ", ".join(pair) + ")", ["flatten()"]]]
+            if draw(st.integers(0, 2)) == 0:
+                # the flattened rank is first split by occupancy and its bottom level is flattened again
+                n_occ = draw(st.integers(1, 2))
+                pair = [flat + "0", other_rank]
+                if pos:
+                    pair.reverse()
+                parts = [[key, ["flatten()"]], [flat, ["uniform_occupancy(%s.2)" % T["t"]] * n_occ],
+                         ["(" + ", ".join(pair) + ")", ["flatten()"]]]
         elif rule == "shape-after-flatten":
             flat = "".join(tup)
             pre = draw(st.integers(0, 2))
